@@ -79,8 +79,7 @@ def IsReplyTo : Packet → List Ack → Prop
   | .unsubscribe pkid fs, as => ∃ reasons, as = [Ack.unsuback pkid reasons] ∧ reasons.length = fs.length
   | .puback _, as => as = []
   | .pubrec pkid, as => as = [] ∨ as = [Ack.pubrel pkid]
-  | .pubrel pkid false, as => as = [Ack.pubcomp pkid]
-  | .pubrel _ true, as => as = []
+  | .pubrel pkid _, as => as = [Ack.pubcomp pkid]      -- with or without MQTT 5 properties
   | .pubcomp _, as => as = []
   | .pingreq, as => as = [Ack.pingresp]
   | .disconnect, as => as = []
@@ -230,9 +229,9 @@ theorem handlePacket_pubrec_appended {s s' : RState} {id : Nat} {cid : String} {
         refine .inr (Appended.frame_right ?_ (reschedule_frame h2))
         refine Appended.g (Appended.g (Appended.setConn hc ?_ ?_ ?_) _) _ <;> rfl
 
-/-- PUBREL (without properties): PUBCOMP is registered, whatever happens next -/
+/-- PUBREL (with or without properties): PUBCOMP is registered, whatever happens next -/
 theorem handlePacket_pubrel_appended {s s' : RState} {id : Nat} {cid : String} {pkid : Nat} {fl fl' : Flags}
-    (h : handlePacket s id cid (.pubrel pkid false) fl = .ok (s', fl')) :
+    (h : handlePacket s id cid (.pubrel pkid hp) fl = .ok (s', fl')) :
     Appended s s' id [Ack.pubcomp pkid] := by
   unfold handlePacket at h
   cases hc : getConn s id with
@@ -289,12 +288,7 @@ theorem handlePacket_reply {s s' : RState} {id : Nat} {cid : String} {pkt : Pack
     rcases handlePacket_pubrec_appended h with a | a
     · exact ⟨[], .inl rfl, a, by simp [Packet.forcesAck]⟩
     · exact ⟨_, .inr rfl, a, by simp [Packet.forcesAck]⟩
-  | pubrel pkid hp =>
-    cases hp with
-    | false => exact ⟨_, rfl, handlePacket_pubrel_appended h, by simp [Packet.forcesAck]⟩
-    | true =>
-      simp only [handlePacket, Except.ok.injEq, Prod.mk.injEq] at h; obtain ⟨rfl, _⟩ := h
-      exact ⟨[], rfl, Appended.of_frame (AckFrame.refl _) id, by simp [Packet.forcesAck]⟩
+  | pubrel pkid hp => exact ⟨_, rfl, handlePacket_pubrel_appended h, by simp [Packet.forcesAck]⟩
   | pubcomp pkid => exact ⟨[], rfl, handlePacket_pubcomp_appended h, by simp [Packet.forcesAck]⟩
   | pingreq =>
     obtain ⟨a, b, _⟩ := handlePacket_pingreq_appended h
@@ -349,20 +343,17 @@ theorem handlePacket_forceAck_mono {s s' : RState} {id : Nat} {cid : String} {pk
         · simp at h
         · simp only [Except.ok.injEq, Prod.mk.injEq] at h; obtain ⟨_, rfl⟩ := h; exact hf
   | pubrel pkid hp =>
-    cases hp with
-    | true => simp only [handlePacket, Except.ok.injEq, Prod.mk.injEq] at h; obtain ⟨_, rfl⟩ := h; exact hf
-    | false =>
-      simp only [handlePacket] at h
-      split at h
-      · simp at h
+    simp only [handlePacket] at h
+    split at h
+    · simp at h
+    · split at h
+      · simp only [Except.ok.injEq, Prod.mk.injEq] at h; obtain ⟨_, rfl⟩ := h; exact hf
       · split at h
+        · simp at h
         · simp only [Except.ok.injEq, Prod.mk.injEq] at h; obtain ⟨_, rfl⟩ := h; exact hf
         · split at h
           · simp at h
           · simp only [Except.ok.injEq, Prod.mk.injEq] at h; obtain ⟨_, rfl⟩ := h; exact hf
-          · split at h
-            · simp at h
-            · simp only [Except.ok.injEq, Prod.mk.injEq] at h; obtain ⟨_, rfl⟩ := h; exact hf
   | pubcomp pkid =>
     simp only [handlePacket] at h
     split at h
